@@ -197,6 +197,35 @@ Definition apply_input_plugins (plugins : list (json -> res json)) (query : json
 Definition run (n : nat) (query : json) : res (list json) :=
   apply_input_plugins (repeat process n) query.
 
+(* ---------- plugin chains with a stub plugin (test scaffolding of stream `chain`) ---------- *)
+
+(* A stub input plugin of the harness: adds a grid section to the queries that satisfy a
+   predicate on a top-level field (`input["grid_search"] = section`, i.e. oset), so that the
+   grid search plugin later in the chain meets a multi-element query state in which only some
+   elements, not necessarily the first, expand. *)
+Inductive pred := PAlways | PHasKey (k : string) | PStrEq (k s : string).
+Definition pred_holds (p : pred) (m : obj) : bool :=
+  match p with
+  | PAlways => true
+  | PHasKey k => match oget m k with Some _ => true | None => false end
+  | PStrEq k s => match oget m k with Some (VStr s') => String.eqb s' s | _ => false end
+  end.
+Definition add_section (p : pred) (section : json) (q : json) : json :=
+  match q with
+  | VObj m => if pred_holds p m then VObj (oset m grid_key section) else q
+  | _ => q
+  end.
+
+Inductive stage := SGrid | SAdd (p : pred) (section : json).
+Definition stage_op (s : stage) : json -> res json :=
+  match s with
+  | SGrid => process
+  | SAdd p section => fun q => Ok (add_section p section q)
+  end.
+(* apply_input_plugins(query, [plugins of the chain]) *)
+Definition run_stages (stages : list stage) (query : json) : res (list json) :=
+  apply_input_plugins (map stage_op stages) query.
+
 (* ---------- specification (no reference to MultiSet, indices or the plugin code) ---------- *)
 
 (* one combination = one (field name, chosen option) per array-valued field, in section order *)
@@ -240,5 +269,24 @@ Definition spec (q : json) : option (list json) :=
       end
   | _ => None
   end.
+
+(* the expansion demanded of a plugin chain: every grid stage replaces every query of the
+   state by its expansion, in place; None as soon as one query is outside the domain *)
+Fixpoint flat_map_opt {A B} (f : A -> option (list B)) (l : list A) : option (list B) :=
+  match l with
+  | [] => Some []
+  | a :: r => match f a, flat_map_opt f r with
+              | Some x, Some y => Some (x ++ y)%list
+              | _, _ => None
+              end
+  end.
+Definition spec_stage (s : stage) (qs : list json) : option (list json) :=
+  match s with
+  | SGrid => flat_map_opt spec qs
+  | SAdd p section => Some (map (add_section p section) qs)
+  end.
+Definition spec_stages (stages : list stage) (q : json) : option (list json) :=
+  fold_left (fun acc s => match acc with Some qs => spec_stage s qs | None => None end)
+            stages (if is_object q then Some [q] else None).
 End Defs.
 End GS.
